@@ -8,17 +8,17 @@ import glob, json, os
 FIRST = {
     # ---- wave 6
     "C05-w6m1-atomicbucket-is-empty-is-simplified-to-look-at-t": "exit 2 (the harness named crossbeam's Guard through the file's imports, which the change removed) -> imports spelled out in the harness; reported by c05b_is_empty_states",
-    "C05-w6m2-clear-with-s-reclamation-is-simplified-only-the-": "exit 2 (the harness named DEFERRED_BLOCK_BATCH_SIZE, removed by the change) -> constant no longer used; reported by c05b_reclaim_only_deferred",
-    "C06-w6m1-key-with-extra-labels-is-rewritten-to-clone-self": "exit 0 under C06's check (the change is in key.rs, which C03's check owns: reported there)",
+    "C05-w6m2-clear-with-s-reclamation-is-simplified-optimised": "exit 2 (the harness named DEFERRED_BLOCK_BATCH_SIZE, removed by the change) -> constant no longer used; reported by c05b_reclaim_only_deferred",
+    "C06-w6m1-key-with-extra-labels-is-rewritten-to-clone-the": "exit 0 under C06's check (the change is in key.rs, which C03's check owns: reported there)",
     "C06-w6m2-in-get-or-create-counter-gauge-histogram-the-rea": "exit 2 (no read-side from_hash in the hashbrown stub) -> stub method + contract assert 'op is handed the storage the shard maps THIS key to'",
-    "C07-w6m1-atomicbucket-clear-with-and-data-with-wait-for-i": "exit 0 under C07's check (the change is in bucket.rs, which C05's check owns: reported there)",
-    "C09-w6m1-payloads-drop-the-end-of-a-drain-flush-cycle-no-": "exit 2 (Vec::drain outside vstd) -> witness confirmation (witness_flush_cycle.rs: a flush dropped early still leaves a fresh writer)",
-    "C10-w6m1-client-send-forwarder-sync-rs-unix-stream-arm-is": "exit 0 (socket I/O was out of scope) -> send.verus.rs: Ok(n) only for the whole payload",
-    "C10-w6m2-state-flush-state-rs-the-three-copies-of-the-tel": "exit 2 (declared rewrite no longer applies: new helper method) -> witness confirmation (witness_flush_timestamps.rs)",
-    "C11-w6m2-in-run-transport-s-per-client-event-branch-the-c": "exit 0 (the per-client arm had no contract) -> arm.verus.rs (lifted): removal only under the licence of a failed write",
-    "C12-w6m1-recency-should-store-is-rewritten-on-top-of-the-": "exit 2 (lost splice point) -> witness confirmation (witness_reregistered.rs)",
+    "C07-w6m1-atomicbucket-clear-with-and-data-with-now-wait-f": "exit 0 under C07's check (the change is in bucket.rs, which C05's check owns: reported there)",
+    "C09-w6m1-payloads-drop-the-end-of-a-drain-flush-cycle-no": "exit 2 (Vec::drain outside vstd) -> witness confirmation (witness_flush_cycle.rs: a flush dropped early still leaves a fresh writer)",
+    "C10-w6m1-client-send-forwarder-sync-rs-unix-stream-arm-ma": "exit 0 (socket I/O was out of scope) -> send.verus.rs: Ok(n) only for the whole payload",
+    "C10-w6m2-state-flush-state-rs-the-three-copies-of-let-pre": "exit 2 (declared rewrite no longer applies: new helper method) -> witness confirmation (witness_flush_timestamps.rs)",
+    "C11-w6m2-in-run-transport-s-per-client-event-branch-the-e": "exit 0 (the per-client arm had no contract) -> arm.verus.rs (lifted): removal only under the licence of a failed write",
+    "C12-w6m1-recency-should-store-is-rewritten-on-top-of-the": "exit 2 (lost splice point) -> witness confirmation (witness_reregistered.rs)",
     "C12-w6m2-prometheus-inner-get-recent-metrics-no-longer-ta": "exit 2 (lost splice point) -> witness confirmation (witness_expired_label_sets.rs)",
-    "C15-w6m2-in-inner-render-metrics-exporter-prometheus-src-": "exit 0 under C15's check (render is C08's: reported there, render's distribution-type assert)",
+    "C15-w6m2-in-inner-render-metrics-exporter-prometheus-src": "exit 0 under C15's check (render is C08's: reported there, render's distribution-type assert)",
     "C17-w6m1-metricslayer-on-new-span-no-longer-asks-the-regi": "exit 2 (Attributes::parent outside the template) -> witness confirmation (witness_span_tree.rs)",
     # ---- wave 5
     "C01-w5m1-with-local-recorder-no-longer-holds-a-localrecor": "exit 0 (Kani does not unwind; with_local_recorder's structure was unclaimed) -> scope.verus.rs (closure runs while the guard is alive and armed, R44) + witness_panic_scope.rs",
@@ -27,8 +27,8 @@ FIRST = {
     "C08-w5m2-the-help-type-header-code-that-was-repeated-thre": "exit 2 (render restructured around a new helper) -> witness confirmation (witness_render_families.rs)",
     "C13-w5m1-router-route-replaces-trie-get-ancestor-key-clos": "exit 2 (closure rule) -> reported by Router::route's postcondition once the demoted failure is confirmed by witness_router.rs (brute-force longest prefix)",
     "C13-w5m2-filterlayer-layer-no-longer-compiles-all-configu": "exit 2 (new helper method outside the template) -> witness confirmation (witness_filter.rs against str::contains)",
-    "C16-w5m2-refactors-drain-from-manual-len-idx-bookkeeping-": "exit 2 (the Kani harnesses read Drain's removed fields: build failure) -> witness confirmation extended to Kani build failures (witness_drain.rs)",
-    "C18-w5m1-per-connection-allowlist-check-is-turned-from-a-": "exit 2 (declared rewrite of iter().any(..) no longer applies) -> witness confirmation (witness_serve.rs: real listener, nested networks)",
+    "C16-w5m2-refactors-drain-from-manual-len-idx-bookkeeping": "exit 2 (the Kani harnesses read Drain's removed fields: build failure) -> witness confirmation extended to Kani build failures (witness_drain.rs)",
+    "C18-w5m1-per-connection-allowlist-check-is-turned-from-a": "exit 2 (declared rewrite of iter().any(..) no longer applies) -> witness confirmation (witness_serve.rs: real listener, nested networks)",
     # ---- round 4 (wave 4 and older changes re-decided in round 4)
     "C19-w4m1-debuggingrecorder-describe-metric-is-simplified": "exit 2 (the contract assert was anchored on a code line of the old body) -> anchored at //@BODYEND; reported by the proof",
     "C19-w4m2-snapshotter-snapshot-gains-an-optimisation-for-h": "exit 2 (closure rule) -> witness confirmation (witness_registered_listed.rs fails on the real crate)",
@@ -39,7 +39,7 @@ FIRST = {
     "C10-w4m2-atomichistogram-flush-unsampled-raw-arm-no-longe": "exit 0 (AtomicHistogram had no contract) -> hist.verus.rs: usage contract (flush drains only with the atomic take-and-deliver)",
     "C12-w4m2-impl-histogramfn-for-generational-t-gains-a-reco": "exit 0 (the harness enumerated the counter / gauge entry points only) -> c12_generational_hist (every HistogramFn entry point)",
     "C07-w4m1-histogram-record-many-metrics-util-no-longer-tal": "exit 0 under C07's check (the change is in metrics-util's Histogram, which C15's check owns: reported there, c15_record_many_contract)",
-    "C07-w4m2-prometheusrecorder-add-description-if-missing-n": "exit 2 (`hash_map::Entry` not in scope in the template) -> import + SharedString str stubs; vstd specifies Entry::{Occupied,Vacant}",
+    "C07-w4m2-prometheusrecorder-add-description-if-missing-no": "exit 2 (`hash_map::Entry` not in scope in the template) -> import + SharedString str stubs; vstd specifies Entry::{Occupied,Vacant}",
     "C15-w3m1-distributionbuilder-new-sorts-the-bucket-overrid": "exit 0 (collect+sort was 'covered by inspection only') -> builder.verus.rs (lifted closure, R39 helper pulled, R38)",
     "C15-w3m2-rollingsummary-add-replaces-the-step-by-step-sea": "exit 0 (add with stored buckets was not machine-checked) -> rolling.verus.rs (unbounded contract on add)",
     "C08-help-escaped-only-with-linefeed": "exit 2 (str::contains outside vstd) -> global rewrite R40",
